@@ -38,6 +38,14 @@ def gen_cases(ctx, n):
         else:
             comps = g.gen_mixed_comps(rng, 120, 4)
         out.append((hx(g.gen_key(rng)), comps))
+    # contents beyond the sizes a buffered implementation might use internally (4 KiB, 8 KiB, 64 KiB): chaining is one CBC
+    # stream over the whole content
+    desc = [(0xC3, b"\x03"), (0xC2, b"\x02"), (0xC1, b"\x03")]
+    for ln in ([4097, 8200] if n < 1000 else [4096, 4097, 4111, 8192, 8193, 65536, 65537, 70001]):
+        blob = g.rbytes(rng, ln)
+        comp = g.show_comp(desc, blob, ln, True)
+        tail = g.gen_comps(rng, 60, 1)
+        out.append((hx(g.gen_key(rng)), comp if tail == "-" else comp + ";" + tail))
     return out
 
 
